@@ -236,8 +236,17 @@ Definition run_0302_opt (ops : list sx) (dest : bytes) (pks : list sx) (mg : N) 
       | inl d0, inl dlno =>
         let dl := match get f0 dlno with Some {| i_kind := KLink _ |} => true | _ => false end in
         let st := recv_fs_opt f0 1 d0 dl (negb (N.eqb mg 0)) mo [] packets in
-        let model := SL [SN (recv_class st); enc_snapshot (snapshot_from f0 1); enc_snapshot (snapshot_from (r_fs st) 1)] in
-        let implv := SL [SN cls; conv_snapshot t0 before; conv_snapshot t0 after] in
+        (* A receive loop that dies in the closed-channel panic runs its deferred errgroup Done
+           on the way down: Receive's g.Wait() returns nil and the epilogue of a metadata transfer
+           races with the death of the process — dest/.fsutil-metadata is found untouched,
+           removed, empty or written.  For these runs the correspondence (not the specification
+           below) leaves that one entry out on both sides. *)
+        let racy := match mo with Some _ => N.eqb (recv_class st) 3 | None => false end in
+        let lp := child_path destreal listing_name in
+        let keep (p : bytes) := negb (racy && (bytes_eqb p lp || strictly_below lp p)) in
+        let model := SL [SN (recv_class st); enc_snapshot (snapshot_from f0 1);
+                         enc_snapshot (filter (fun e : bytes * N * inode => keep (fst (fst e))) (snapshot_from (r_fs st) 1))] in
+        let implv := SL [SN cls; conv_snapshot t0 before; conv_snapshot t0 (filter (fun e => keep (re_path e)) after)] in
         (* specification, on the raw snapshots *)
         let shared := map re_ino (filter (fun e => strictly_below destreal (re_path e)) before) in
         let contained := sx_eqb (outside_view destreal shared before) (outside_view destreal shared after) in
